@@ -109,9 +109,16 @@ class ProgramIndex:
             for v in e.get("variants", []):
                 self.variant_enum.setdefault(v["name"] if isinstance(v, dict) else v, set()).add(name)
         self.struct_named = {}
+        self.struct_fields = {}
         for (path, name), e in ast.structs.items():
             self.structs.add(name)
             self.struct_named[name] = not e.get("tuple")
+            fl = e.get("fields") or []
+            self.struct_fields.setdefault(name, [f.get("name") for f in fl if isinstance(f, dict) and f.get("name")])
+        self.variant_pos = {}
+        for (path, name), e in ast.enums.items():
+            for k, v in enumerate(e.get("variants", [])):
+                self.variant_pos.setdefault(v["name"] if isinstance(v, dict) else v, []).append((path, name, k))
 
     @staticmethod
     def crate_of(file):
@@ -551,6 +558,7 @@ class AEval(dtable.Eval):
             vals = [("str", "true" if v[1] else "false") if v[0] == "bool" else v for v in vals]
             if getattr(self, "display", None) is not None:
                 vals = [self.display(v) if v[0] == "ctor" else v for v in vals]
+            vals = [self._program_display(v) if v[0] == "ctor" else v for v in vals]
             s = dtable.render([("fmt", f, tuple(vals))])
             return ("str", s) if p == "format" else TOK(s)
         if p in ("write", "writeln") and "args" in e and len(e["args"]) >= 2:
@@ -1037,7 +1045,29 @@ class AEval(dtable.Eval):
             return ("tuple", tuple(self._key(x) for x in v[1]))
         if v[0] == "ctor" and v[1] == "Reverse" and v[2]:
             return ("rev", _Rev(self._key(v[2][0])))
-        raise Unknown("sort key is not a number / string")
+        if v[0] == "ctor" and v[1] in ("Some", "None"):
+            return ("opt", 1, self._key(v[2][0])) if v[1] == "Some" else ("opt", 0, ())
+        if v[0] == "atom":
+            return ("atom", v[1])       # opaque values: ordered by name (deterministic; their real order is not modelled)
+        if v[0] == "ctor" and PROGRAM is not None:
+            # a user type: its own `Ord::cmp` when it has one that orders by a single field (e.g. Key by name), else the derived
+            # order (position of the variant, then the fields in declaration order)
+            fn = PROGRAM.method(v[1], "cmp", self._cur_file(), v)
+            if fn is not None and fn.body is not None:
+                m = re.match(r"^\{?self\.(\w+)\.cmp\(&other\.\1\)\}?$", re.sub(r"\s+", "", __import__("astlib").show(fn.body)))
+                if m:
+                    return ("by-field", self._key(fields_of(v).get(m.group(1)) if m.group(1) in fields_of(v) else v[2][int(m.group(1))]))
+                raise Unknown("sort key: user-defined ordering of %s" % v[1])
+            cands = PROGRAM.variant_pos.get(v[1]) or []
+            crate = PROGRAM.crate_of(self._cur_file())
+            pos = {k for (pth, _en, k) in cands if PROGRAM.crate_of(pth) == crate} or {k for (_p, _e, k) in cands}
+            if len(pos) == 1:
+                fs = fields_of(v)
+                return ("variant", next(iter(pos)), tuple(self._key(x) for x in v[2]) + tuple(self._key(fs[k]) for k in sorted(fs)))
+            if v[1] in PROGRAM.struct_fields:
+                fs = fields_of(v)
+                return ("struct", tuple(self._key(x) for x in v[2]) + tuple(self._key(fs[k]) for k in PROGRAM.struct_fields[v[1]] if k in fs))
+        raise Unknown("sort key is not a number / string: %s" % (v,))
 
     def _inplace(self, m, part, args):
         import functools
@@ -1863,6 +1893,33 @@ class AEval(dtable.Eval):
         if self.truth(c, env):
             return self.ex(n["then"], env)
         return self.ex(n["else"], env) if n.get("else") else UNIT
+
+    def _program_display(self, v):
+        """the text of a user type's own `Display::fmt`, interpreted (e.g. Key prints its name)"""
+        if PROGRAM is None:
+            return v
+        types = set(PROGRAM.variant_enum.get(v[1], ())) | ({v[1]} if v[1] in PROGRAM.structs else set())
+        cands = [f for t in types for f in PROGRAM.by_qual.get((t, "fmt"), []) if "Display" in (f.impl_trait or "")]
+        fn = PROGRAM._pick(cands, self._cur_file()) if cands else None
+        if fn is None or self.depth > 12:
+            return v
+        sub = AEval(funcs=self.funcs, consts=self.consts, builtins=self.builtins)
+        sub.path_builtins = dict(self.path_builtins)
+        sub.depth = self.depth + 1
+
+        def dfmt(a):
+            x = a[0]
+            if x[0] == "ctor":
+                x = sub._program_display(x)
+            sub.out.append(x)
+            return C("Ok", UNIT)
+        for k in ("Display::fmt", "fmt::Display::fmt", "std::fmt::Display::fmt", "core::fmt::Display::fmt"):
+            sub.path_builtins.setdefault(k, dfmt)
+        try:
+            sub.call_fn_obj(fn, [v, A("formatter")])
+            return ("str", dtable.render(sub.out))
+        except Unknown:
+            return v
 
     def _cur_file(self):
         st = getattr(self, "_file_stack", None)
